@@ -435,6 +435,27 @@ def divmod_case(case, res):
                     err = abs(int(qval) * dv + rv - pv)
                     if not res.ratio("q*d + r - p / budget", err, TOL * max(1, abs(int(qval)))):
                         res.violation(f"{site}|q*d + r != p", f"q*d + r - p = {float(err):.3g} [{sub}]", case, sub)
+                # in-place / out= forms whose target is the dividend itself
+                if kind != "Phase array":
+                    for nm, fn in (("p %= d", lambda q0: q0.__imod__(obj)), ("np.remainder(p, d, out=p)", lambda q0: np.remainder(q0, obj, out=q0)),
+                                   ("np.divmod(p, d, out=(None, p))", lambda q0: np.divmod(q0, obj, out=(None, q0))[1])):
+                        q0 = mk(n, f)
+                        try:
+                            rr = fn(q0)
+                        except Exception as e:
+                            res.violation(f"divmod|{kind}|{nm}|raised", f"{type(e).__name__}: {e} [{sub}]", case, sub)
+                            continue
+                        res.transitions += 1
+                        if rr is not q0 or type(q0) is not Phase:
+                            res.violation(f"divmod|{kind}|{nm}|identity", f"target not returned [{sub}]", case, sub)
+                            continue
+                        rv = exact(q0)[0]
+                        # q*d + r = p for an integer q, 0 <= r <= d
+                        k_ = (pv - rv) / dv
+                        if not (-TOL <= rv <= dv + TOL) or abs(k_ - round(k_)) * dv > TOL * max(1, abs(round(k_))):
+                            res.violation(f"divmod|{kind}|{nm}|value", f"in-place remainder of {float(pv)!r} by {float(dv)!r} left "
+                                          f"{float(rv)!r} in the target [{sub}]", case, sub)
+                    res.hits["in-place remainder"] += 1
                 if near:
                     res.hits["remainder within 2^-52 of 0 or d (either neighbour accepted)"] += 1
                 if kind == "Phase":
@@ -594,7 +615,7 @@ def main(argv=None):
     return report.run_check(
         PID, gen_cases=gen_cases, check_case=check_case, describe=describe,
         required_hits=["exact +-1/2 fraction", "imaginary phase", "factor kinds", "imaginary factor", "in-place real<->imaginary transitions", "addend kinds",
-                       "unit-mismatched addend rejected", "out= forms", "Phase divisor",
+                       "unit-mismatched addend rejected", "out= forms", "Phase divisor", "in-place remainder",
                        "remainder within 2^-52 of 0 or d (either neighbour accepted)", "whole grid as one array",
                        "trig/exp on fractional part", "construction kinds"],
         assumptions=["operand values are read back exactly (Fractions of the stored doubles); results beyond 2^52 cycles are outside "
